@@ -606,6 +606,84 @@ impl Part for OneCodec {
     }
 }
 
+// ------------------------------------------------------------------ the same text travelling through several fields in a row
+/// Names and messages are re-sent all the time: the same text goes into one field after another (IS_III then IS_RIP, plate then
+/// skin name of one IS_NPL, a chat line as MST then MSX ...), on one thread. Each packet must encode to what it encodes to on
+/// its own: the reference frames are produced first, on a thread of their own and in reverse order, so that no state a text
+/// conversion may keep (per thread, per process) has the same history in both passes.
+#[derive(Clone, Debug)]
+pub struct SameTextCase {
+    pub text: String,
+    /// indices into build::TEXT_FIELDS, in the order of encoding
+    pub fields: Vec<usize>,
+    pub compressed: bool,
+}
+
+pub struct SameTextSeq(pub &'static str);
+impl Part for SameTextSeq {
+    type Case = SameTextCase;
+    fn name(&self) -> &'static str {
+        "one-text-through-several-fields"
+    }
+    fn check(&self, c: &SameTextCase, ev: &mut Local) -> Result<(), Fail> {
+        let mode = if c.compressed { Mode::Compressed } else { Mode::Uncompressed };
+        let packets: Vec<(String, Packet)> = c
+            .fields
+            .iter()
+            .filter_map(|f| {
+                let (v, p) = build::TEXT_FIELDS[*f % build::TEXT_FIELDS.len()];
+                build::text_packet(v, p, &c.text, 1).map(|pk| (format!("{v}.{p}"), pk))
+            })
+            .collect();
+        type Answer = Result<Result<Vec<u8>, String>, String>;
+        let enc = |p: &Packet| -> Answer { guard(|| insim::net::Codec::new(mode.clone()).encode(p).map(|b| b.to_vec()).map_err(|e| e.to_string())) };
+        let reference: Vec<Answer> = in_fresh_thread(|| {
+            let mut r: Vec<Answer> = packets.iter().rev().map(|(_, p)| enc(p)).collect();
+            r.reverse();
+            r
+        });
+        for (i, (name, p)) in packets.iter().enumerate() {
+            let got = enc(p);
+            let same = match (&got, &reference[i]) {
+                (Ok(Ok(a)), Ok(Ok(b))) => a == b,
+                (Ok(Err(_)) | Err(_), Ok(Err(_)) | Err(_)) => true,
+                _ => false,
+            };
+            let show = |a: &Answer| match a {
+                Ok(Ok(b)) => format!("{} bytes {}", b.len(), hex(&b[..b.len().min(48)])),
+                Ok(Err(e)) => format!("refused: {e}"),
+                Err(p) => format!("panic: {p}"),
+            };
+            ensure!(
+                same,
+                format!("{}:encoding-depends-on-earlier-texts:{name}", self.0),
+                "{} mode: the text {:?} was written into {:?} in turn; {name} (#{i}) then encodes to {}, on its own (fresh thread) to {}",
+                mode_name(&mode),
+                c.text,
+                packets.iter().map(|(n, _)| n.as_str()).collect::<Vec<_>>(),
+                show(&got),
+                show(&reference[i])
+            );
+        }
+        if packets.len() >= 2 && !c.text.is_ascii() {
+            ev.nontrivial(&(c.compressed, &c.text, &c.fields));
+        }
+        ev.class(if c.text.is_ascii() { "ascii text" } else { "text with codepage switches" });
+        Ok(())
+    }
+    fn to_json(&self, c: &SameTextCase) -> Value {
+        json!({"text": c.text, "fields": c.fields.iter().map(|f| { let (v, p) = build::TEXT_FIELDS[*f % build::TEXT_FIELDS.len()]; format!("{v}.{p}") }).collect::<Vec<_>>(), "compressed": c.compressed})
+    }
+    fn from_json(&self, v: &Value) -> Option<SameTextCase> {
+        let fields = v.get("fields")?.as_array()?.iter().map(|f| { let f = f.as_str()?; build::TEXT_FIELDS.iter().position(|(a, b)| format!("{a}.{b}") == f) }).collect::<Option<Vec<_>>>()?;
+        Some(SameTextCase { text: v.get("text")?.as_str()?.to_string(), fields, compressed: v.get("compressed")?.as_bool()? })
+    }
+}
+
+pub fn same_text_strategy() -> impl Strategy<Value = SameTextCase> {
+    (crate::props::c01::field_text_strategy(), proptest::collection::vec(0..build::TEXT_FIELDS.len(), 2..7), any::<bool>()).prop_map(|(text, fields, compressed)| SameTextCase { text, fields, compressed })
+}
+
 pub fn seq_strategy() -> impl Strategy<Value = SeqCase> {
     let item = prop_oneof![
         6 => tape_strategy().prop_map(|tc| (0u8, tc.variant, tc.tape)),
@@ -653,7 +731,7 @@ pub fn ver_frame_strategy() -> impl Strategy<Value = MutCase> {
 }
 
 pub fn parts() -> Vec<Box<dyn DynPart>> {
-    vec![Box::new(Counts), Box::new(TextLengths), Box::new(FromImages), Box::new(AcceptedFrames), Box::new(MsoTextStart), Box::new(OneCodec("c03")), Box::new(LengthFn), Box::new(BuiltVer)]
+    vec![Box::new(Counts), Box::new(TextLengths), Box::new(FromImages), Box::new(AcceptedFrames), Box::new(MsoTextStart), Box::new(OneCodec("c03")), Box::new(SameTextSeq("c03")), Box::new(LengthFn), Box::new(BuiltVer)]
 }
 
 pub fn run(run: &mut Run) {
@@ -754,6 +832,8 @@ pub fn run(run: &mut Run) {
     // (6) sequences of packets (refused ones among them) on one codec instance, as a connection uses it
     let n = run.budget(40_000, 2_000_000);
     run.prop(&OneCodec("c03"), seq_strategy(), n);
+    let n = run.budget(30_000, 1_000_000);
+    run.prop(&SameTextSeq("c03"), same_text_strategy(), n);
     // (6b) hand-built IS_VER around any finite version: numbers with 1..9 integer digits with and without a fraction (the printed
     // form is cut to 8 bytes wherever that falls), tiny and huge numbers, revisions of any size
     let major = prop_oneof![
